@@ -327,4 +327,20 @@ def tokenize (inp : Bytes) : Option LexResult :=
   (lexAll (lexFuel inp) (Lx.init inp)).map fun (ts, sf) =>
     { toks := ts, insideCode := !sf.isHTML, panicked := sf.panicked }
 
+/-- positions of the bytes of the input, in order: zero-based line and byte column -/
+def posTable (inp : Bytes) : List (Nat × Nat) := go inp 0 0
+where
+  go : Bytes → Nat → Nat → List (Nat × Nat)
+  | [], _, _ => []
+  | c :: r, l, col => (l, col) :: (if c == 10 then go r (l + 1) 0 else go r l (col + 1))
+
+/-- for every byte of the input, the indices of the tokens (EOF excluded) whose
+    `Position.Contains` accepts the byte's position -/
+def coverTable (inp : Bytes) (toks : List Token) : List (List Nat) :=
+  (posTable inp).map fun (l, c) =>
+    (List.range toks.length).filter fun k =>
+      match toks[k]? with
+      | some t => t.ty != .EOF && t.pos.contains l c
+      | none => false
+
 end Tw
